@@ -9,17 +9,18 @@ namespace SqlDt
 
 def bytesOf (s : String) : Bytes := s.toList.map Char.toNat
 
-/-- The fixed pictures of `serialize.rs`. -/
+/-- The fixed pictures of `serialize.rs` (`static *_FORMATTER`), REGENERATED from the source on every run
+    ("YYYY-MM-DD", "YYYY-MM-DD HH24:MI:SS.FF6", "HH24:MI:SS.FF6", "YYYY-MM", "DD HH24:MI:SS.FF6", "YYYY-MM-DD HH24:MI:SS"). -/
 def Serde.picture : Ty → Bytes
-  | .D => bytesOf "YYYY-MM-DD"
-  | .TS => bytesOf "YYYY-MM-DD HH24:MI:SS.FF6"
-  | .T => bytesOf "HH24:MI:SS.FF6"
-  | .YM => bytesOf "YYYY-MM"
-  | .DT => bytesOf "DD HH24:MI:SS.FF6"
-  | .OD => bytesOf "YYYY-MM-DD HH24:MI:SS"
+  | .D => Gen.SERDE_PICTURE_D
+  | .TS => Gen.SERDE_PICTURE_TS
+  | .T => Gen.SERDE_PICTURE_T
+  | .YM => Gen.SERDE_PICTURE_YM
+  | .DT => Gen.SERDE_PICTURE_DT
+  | .OD => Gen.SERDE_PICTURE_OD
 
-/-- `type StrBuf = StackStr<32>` -/
-def Serde.BUF_CAP : Nat := 32
+/-- `type StrBuf = StackStr<32>` (regenerated from the source) -/
+def Serde.BUF_CAP : Nat := Gen.SERDE_BUF_CAP
 
 /-- Human-readable serialisation: the text handed to `serialize_str`. -/
 def Serde.serStr (ty : Ty) (v : Int) : Chk Bytes :=
